@@ -42,7 +42,8 @@ def add_dense(u, extra=''):
          ensures=[E('wf', 'r.us_wf()'), E('empty', 'forall|i: Index| !r.has(i)')])
     for (m, labels) in METHODS:
         u.fn(ST, [DH, 'fn ' + m], props='C04 C16', group='impl_dense', key='DenseVecStorage::' + m,
-             rules=N8 + N19, hint_obligations=TRAIT(m, [(l, (p + ' ' + extra).strip()) for (l, p) in labels]), **DENSE.get(m, {}))
+             rules=N8 + N19, hint_obligations=TRAIT(m, [(l, (p + ' ' + extra).strip()) for (l, p) in labels]) +
+             ([E('tables_first', 'the redirection tables are emptied before the data vector runs the destructors', 'C19')] if m == 'clean' else []), **DENSE.get(m, {}))
 
 
 def add_map_kind(u, name):
@@ -79,6 +80,7 @@ def add_dense_shared(u):
 
 
 DENSE = {
+    'clean': dict(hints=[('before', 'self.data.clear()', 'proof { assert(/*@L:hint.tables_first*/ self.data_id@.len() == 0 && self.entity_id@.len() == 0 /*@E*/); }')]),
     'insert': dict(hints=[('start', None, 'proof { lemma_tab_room(dense_tab(old(self)), id); }'),
                           ('after', 'self.data.push(', 'proof { lemma_tab_insert(dense_tab(old(self)), dense_tab(self), id as Index); }')]),
     'remove': dict(hints=[('before_tail', None, 'proof { let ghost o = dense_tab(old(self)); }')]),
